@@ -104,7 +104,14 @@ class Exec:
         if isinstance(v, NameV):
             return v.term
         if isinstance(v, StrLit):
-            return self.ctx.name_lit(v.s)
+            c = self.ctx.name_lit(v.s)
+            seen = self.__dict__.setdefault("_lit_facts", set())
+            if v.s not in seen:
+                # what the two string predicates say about a literal is known
+                seen.add(v.s)
+                self.ctx.axioms.append(self.str_empty(c) == z3.BoolVal(v.s == ""))
+                self.ctx.axioms.append(self.starts_digit(c) == z3.BoolVal(v.s[:1].isdigit()))
+            return c
         if z3.is_expr(v) and v.sort() == self.ctx.Name:
             return v
         raise Unsupported(f"expected a name, got {v!r}")
@@ -895,9 +902,13 @@ class Exec:
             if not e.keys:
                 junk = z3.Function(f"empty_dict_val!{next(self.ctx._n)}", self.ctx.Name, self.ctx.Name)
                 return DictV(lambda x: z3.BoolVal(False), lambda x, f=junk: NameV(f(x)), items=[])
-            ks = [self.name_term(self.ev(k, st)) for k in e.keys]
+            kvals = [self.ev(k, st) for k in e.keys]
+            ks = [self.name_term(k) for k in kvals]
             vs = [self.ev(v, st) for v in e.values]
-            return DictV(lambda x, ks=ks: z3.Or([x == k for k in ks]), None, items=list(zip(ks, vs)))
+            d = DictV(lambda x, ks=ks: z3.Or([x == k for k in ks]), None, items=list(zip(ks, vs)))
+            if all(isinstance(a, StrLit) for a in kvals) and all(isinstance(b, StrLit) for b in vs):
+                d.str_items = [(a.s, b.s) for a, b in zip(kvals, vs)]
+            return d
         raise Unsupported(f"expression {type(e).__name__} (statement #{getattr(e, 'lineno', '?')})")
 
     def _looks_like_types(self, items):
@@ -1174,7 +1185,17 @@ class Exec:
             self.split_raise(st, z3.Not(z3.Select(rec.dom, k)), "KeyError")
             return BBVal(z3.Select(rec.val, k))
         if isinstance(base, DictV):
-            k = self.name_term(self.ev(e.slice, st))
+            kv = self.ev(e.slice, st)
+            if isinstance(kv, TypeV) and base.items is not None and getattr(base, "str_items", None) is not None \
+                    and all(a in self.ctx.tval and b in self.ctx.tval for a, b in base.str_items):
+                # a literal {type name: type name} table indexed with a node type
+                t = kv.term
+                self.split_raise(st, z3.Not(z3.Or([t == self.ctx.tval[a] for a, _ in base.str_items])), "KeyError")
+                r = self.ctx.tval[base.str_items[-1][1]]
+                for a, b in reversed(base.str_items[:-1]):
+                    r = z3.If(t == self.ctx.tval[a], self.ctx.tval[b], r)
+                return TypeV(r)
+            k = self.name_term(kv)
             self.split_raise(st, z3.Not(base.dom(k)), "KeyError")
             if base.items is not None:
                 raise Unsupported("explicit dict lookup")
